@@ -47,6 +47,7 @@ def run(rep, tier, seed):
     q = tier == "quick"
     runs = [(3, 3, 1, 0), (4, 2, 1, 0), (5, 1, 10, 0), (4, 1, 1, 1), (4, 1, 1, 2)] if q else [(3, 6, 1, 0), (4, 4, 1, 0), (5, 3, 10, 0), (4, 3, 1, 1), (4, 3, 1, 2), (5, 2, 10, 3)]
     recs = []
+    stale_out = {}
     for (D, Q, fb, zo) in runs:
         res = tlc_ok(run_tlc("MC_LinAlg", CFG % (D, Q, fb, zo), workers=16, timeout=2400), "MC_LinAlg D=%d" % D)
         rep.add_tlc(res, "MC_LinAlg_D%d_zero%d" % (D, zo))
@@ -111,6 +112,15 @@ def run(rep, tier, seed):
                         alt = call()
                         if alt.data.shape != gd.shape or not numpy.array_equal(alt.data, gd, equal_nan=True):
                             rep.violation(sig + ": %s differs from algopy.%s" % (fname, base), det)
+                if base == "solve" and all(isinstance(a, UTPM) for a in args):
+                    # the result buffer of an earlier call handed back through out=: its old content must not matter
+                    key = (kind, gd.shape)
+                    stale = stale_out.get(key)
+                    if stale is not None:
+                        o_ = UTPM.solve(args[0], args[1], out=stale)
+                        if o_.data.shape != gd.shape or not numpy.allclose(o_.data, gd, rtol=1e-12, atol=1e-12):
+                            rep.violation(sig + ": out= buffer holding an earlier result gives another solution", det)
+                    stale_out[key] = UTPM(gd.copy() * 3.0 + 1.0)
                 if kind == "logdet":
                     exp = exp.copy()
                     for p in range(P):
